@@ -696,7 +696,7 @@ func ruleTypeTables(c *Ctx) {
 				if call, ok := ins.(*ssa.Call); ok {
 					if callee := staticCallee(call.Common()); callee != nil {
 						allInstrs(callee, func(i2 ssa.Instruction) {
-							if c2, ok := i2.(*ssa.Call); ok && strings.HasSuffix(calleeName(c2.Common()), "newMessageWithTypeByte") {
+							if c2, ok := i2.(*ssa.Call); ok && isTypeByteCtor(staticCallee(c2.Common())) {
 								if k, ok := constInt(c2.Common().Args[0]); ok {
 									built = k
 								}
@@ -744,7 +744,7 @@ func writeTokens(fn *ssa.Function, buf ssa.Value, tt typeTables) func(ins ssa.In
 				return []tok{{K: "Const", S: string(rune(cv))}}
 			}
 			if ex, ok := strip(arg).(*ssa.Extract); ok && ex.Index == 0 {
-				if cl, ok := ex.Tuple.(*ssa.Call); ok && strings.HasSuffix(calleeName(cl.Common()), "messageTypeToByte") {
+				if cl, ok := ex.Tuple.(*ssa.Call); ok && isTypeToByteFn(staticCallee(cl.Common())) {
 					if f, ok := canonField(cl.Common().Args[0]); ok && f == recv.Name()+".Type" {
 						return []tok{{K: "TypeByte"}}
 					}
@@ -1263,4 +1263,33 @@ func ruleConstructors(c *Ctx) {
 func isByteType(t types.Type) bool {
 	b, ok := t.Underlying().(*types.Basic)
 	return ok && b.Kind() == types.Uint8
+}
+
+// isTypeToByteFn: a function of proto that looks its MessageType argument up in the type->byte table.
+func isTypeToByteFn(f *ssa.Function) bool {
+	if f == nil || f.Blocks == nil || fnPkgPath(f) != pkgProto || len(f.Params) != 1 {
+		return false
+	}
+	found := false
+	allInstrs(f, func(ins ssa.Instruction) {
+		if lk, ok := ins.(*ssa.Lookup); ok {
+			if ld, ok := lk.X.(*ssa.UnOp); ok {
+				if g, ok := ld.X.(*ssa.Global); ok {
+					if m, ok := g.Type().(*types.Pointer).Elem().Underlying().(*types.Map); ok && isByteType(m.Elem()) && strip(lk.Index) == ssa.Value(f.Params[0]) {
+						found = true
+					}
+				}
+			}
+		}
+	})
+	return found
+}
+
+// isTypeByteCtor: a function of proto taking the type byte and returning (*Message, error).
+func isTypeByteCtor(f *ssa.Function) bool {
+	if f == nil || fnPkgPath(f) != pkgProto || len(f.Params) != 1 || !isByteType(f.Params[0].Type()) {
+		return false
+	}
+	res := f.Signature.Results()
+	return res.Len() == 2 && strings.HasSuffix(res.At(0).Type().String(), "proto.Message") && isErrorType(res.At(1).Type())
 }
